@@ -111,6 +111,12 @@ type Node struct {
 	Dead bool
 }
 
+// HeldSync is a leader's answer to a follower's revision request, not yet applied by the follower.
+type HeldSync struct {
+	Node int
+	Rev  uint64
+}
+
 // World is one simulated run.
 type World struct {
 	Sc              *Scenario
@@ -140,7 +146,8 @@ type World struct {
 	TiKVScanFaultArmed bool
 	TiKVScanFaultFired int
 	TiKVGetFaultFired  int
-	Fatals             []string // klog.Fatal calls of node code (the node crashed there)
+	HeldSyncs          []HeldSync // answers of the leader to follower reads that the follower has not applied yet
+	Fatals             []string   // klog.Fatal calls of node code (the node crashed there)
 	OnFatal            func(node int, msg string)
 	FineClock          bool // never let the clock hop far while tasks may become eligible (electors)
 	YieldOnSetRevision bool // also yield when an unregistered goroutine (the elector\'s OnStartedLeading) sets the revision
